@@ -30,6 +30,7 @@ contract(f"{D}.update", shapes={"self": DBS, "data": REC, "index": T.int()}, mod
                   "other_objects_untouched": "implies(index != old(K(self)), " + KEEP + ")", "next_id_untouched": "self._next_id == old(self._next_id)"},
          **S)
 contract(f"{D}.exists", shapes={"self": DBS, "field_name": T.const("dataObjectID"), "data_object_id": T.int()},
-         ensures={"by_identifier": "implies(data_object_id == K(self), result == map_has(self.database, K(self)))"}, **S)
+         requires=S["requires"] + ["field_name == 'dataObjectID'"],
+         ensures={"by_identifier": "implies(data_object_id == K(self), result == map_has(self.database, K(self)))"}, **{k: v for k, v in S.items() if k != "requires"})
 contract(f"{D}.delete", shapes={"self": DBS}, modifies=["self.database", "self._next_id"], frame_check=False,
          ensures={"returns_true": "result"}, **{k: v for k, v in S.items() if k != "requires"})
